@@ -542,6 +542,31 @@ def check_knot(case):
                 else:
                     stats["max_relerr_table_integrals"] = max(stats.get("max_relerr_table_integrals", 0.0), er)
 
+    # ---- after all the mesh evaluations above: a FRESH basis on the default interval, and one on a caller-owned interval
+    # array, must not be influenced by (or write into) anything earlier objects used
+    try:
+        lb = LagrangeBasis(p)
+        nodes01 = [k / p for k in range(p + 1)]
+        e_k = float(np.max(np.abs(np.asarray(lb(nodes01)) - np.eye(p + 1))))
+    except Exception as ex:  # noqa
+        e_k = float("inf")
+    ncmp += 1
+    if not e_k <= 1e-10:
+        fails.append({"site": "fresh LagrangeBasis on the default interval [0,1] vs Kronecker delta at its nodes (after other bases were used)",
+                      "msg": f"{e_k:.3e}", "data": dict(tagb, err=e_k)})
+    try:
+        own = np.array([0.25, 0.75])
+        lb2 = LagrangeBasis(p, interval=own)
+        lb2(np.array([0.3]))
+        lb3 = LagrangeBasis(p, interval=np.array([0.0, 0.5]))
+        lb3(np.array([0.1]))
+        mod = not np.array_equal(own, np.array([0.25, 0.75]))
+    except Exception as ex:  # noqa
+        mod = True
+    ncmp += 1
+    if mod:
+        fails.append({"site": "LagrangeBasis modifies the interval array of its caller", "msg": "interval array changed", "data": dict(tagb)})
+
     evals += ncmp
     stats["n_xi_letters"] = len(xs)
     # keep the report small: at most 3 fails per site
